@@ -371,6 +371,41 @@ func genHistory(r *gen.Rand) histT {
 				o.App = append(o.App, appT{S: s, T: t, V: val, Ex: h.Cfg.MaxEx > 0 && r.Chance(1, 3)})
 			}
 			h.Ops = append(h.Ops, o)
+		case x < 64:
+			// a sample exactly on / next to a block boundary b (it starts a new chunk), the next
+			// sample of the series beyond the following boundary (cuts again: the short chunk
+			// ending at b, b+-1 gets m-mapped), then a head compaction so that the newest block
+			// may end exactly at b (= minValidTime of the next start)
+			s := r.Intn(h.Cfg.NSeries)
+			if s == oooOnly || (s == idle && i > n/3) {
+				s = 0
+			}
+			br := h.Cfg.BlockRange
+			b := (now/br + 1) * br
+			if now < 0 {
+				b = -((-now) / br) * br
+				if b <= now {
+					b += br
+				}
+			}
+			t1 := b + r.PickI64(-1, 0, 0, 1)
+			if t1 <= now {
+				t1 = b
+			}
+			t2 := b + br + r.Range(20, 300)
+			t3 := t2 + r.Range(1, 250)
+			for _, t := range []int64{t1, t2, t3} {
+				for used[s][t] {
+					t++
+				}
+				used[s][t] = true
+				val++
+				h.Ops = append(h.Ops, opT{K: "tx", App: []appT{{S: s, T: t, V: val}}})
+				last[s] = t
+				now = t
+			}
+			headData = true
+			h.Ops = append(h.Ops, opT{K: "compact"})
 		case x < 70:
 			a := now - r.Range(0, 1200)
 			b := a + r.Range(0, 600)
@@ -1455,6 +1490,8 @@ func corpusHistories() []corpusT {
 			tx(appT{0, 5000, 1, false}), tx(appT{0, 5100, 2, false}),
 			tx(appT{1, 3000, 3, true}, appT{1, 3010, 4, false}, appT{1, 3020, 5, false}), tx(appT{1, 3030, 6, false}, appT{1, 3040, 7, false}),
 			tx(appT{1, 3050, 8, false}, appT{1, 2990, 9, false}), tx(appT{0, 5200, 10, false})}}},
+		{"sample-on-block-boundary", histT{OOOOnly: -1, Idle: -1, Cfg: cfgT{BlockRange: 1000, OOOWindow: 0, SPC: 120, MaxEx: 0, NSeries: 1}, FirstSnap: true, Ops: []opT{
+			tx(appT{0, 1100, 1, false}), tx(appT{0, 2000, 2, false}), tx(appT{0, 3100, 3, false}), tx(appT{0, 3400, 4, false}), {K: "compact"}}}},
 		{"outdated-snapshot-nonpositive", histT{Cfg: cfgT{BlockRange: 1000, OOOWindow: 0, SPC: 120, MaxEx: 0, NSeries: 1}, FirstSnap: true, Ops: []opT{
 			tx(appT{0, -300, 1, false}), {K: "restart", Snap: false}, tx(appT{0, -200, 2, false}), tx(appT{0, 0, 3, false}), tx(appT{0, 1, 4, false})}}},
 		{"recreated-series", histT{Cfg: cfgT{BlockRange: 1000, OOOWindow: 0, SPC: 2, MaxEx: 0, NSeries: 2}, FirstSnap: false, Ops: []opT{
